@@ -23,9 +23,19 @@ EXEMPLARS = {   # concrete witnesses per kind (used for replay and the native cr
 }
 
 
+ALIASES = {}
+
+
 def read_models(tree):
-    """class -> {"fields": {name: [member type names]}, "smart_union": bool}"""
+    """class -> {"fields": {name: [member type names]}, "smart_union": bool}.  Module-level type aliases (`Term = Union[...]`) are
+    resolved, so naming an annotation changes nothing."""
     out = {}
+    ALIASES.clear()
+    for n in tree.body:
+        if isinstance(n, ast.Assign) and len(n.targets) == 1 and isinstance(n.targets[0], ast.Name) and isinstance(n.value, (ast.Subscript, ast.BinOp, ast.Name, ast.Attribute)):
+            ALIASES[n.targets[0].id] = n.value
+        elif isinstance(n, ast.AnnAssign) and isinstance(n.target, ast.Name) and n.value is not None and isinstance(n.value, (ast.Subscript, ast.BinOp, ast.Name, ast.Attribute)):
+            ALIASES[n.target.id] = n.value
     for n in tree.body:
         if not isinstance(n, ast.ClassDef) or "BaseModel" not in [ast.unparse(b) for b in n.bases]:
             continue
@@ -41,7 +51,11 @@ def read_models(tree):
     return out
 
 
-def members(ann):
+def members(ann, depth=0):
+    if isinstance(ann, ast.Name) and ann.id in ALIASES and depth < 8:
+        return members(ALIASES[ann.id], depth + 1)
+    if isinstance(ann, ast.Subscript) and ast.unparse(ann.value) in ("Optional", "typing.Optional"):
+        return members(ann.slice, depth + 1) + ["None"]
     if isinstance(ann, ast.Subscript) and ast.unparse(ann.value) in ("Union", "typing.Union"):
         elts = ann.slice.elts if isinstance(ann.slice, ast.Tuple) else [ann.slice]
         out = []
